@@ -340,6 +340,14 @@ pub fn apply_preexec(s: &mut Sim, pid: i32) {
             }
             continue;
         }
+        if let ChildOp::Fcntl { cmd, .. } = &op {
+            if *cmd == libc::F_GETFL && ret >= 0 && c.ret >= 0 && ret != c.ret {
+                // status flags of an open file shared with somebody who changed them between
+                // the fork and this step (another forked child, say): what was done stands
+                s.k.probe("preexec_getfl_changed_since_fork");
+                continue;
+            }
+        }
         if ret != c.ret || errno != c.errno {
             s.harness_error.get_or_insert(format!("replay divergence in pre-exec call {:?}: recorded ({},{}) now ({},{})", c.op, c.ret, c.errno, ret, errno));
             s.k.probe("replay_divergence");
